@@ -34,6 +34,19 @@ func (c *sszCtx) lexpr(e ast.Expr, specNames map[string]bool, depth int) (string
 			}
 		}
 	case *ast.CallExpr:
+		// XType.Length() of a vector view type defined as VectorType(elem, L): L
+		if sel, ok := e.Fun.(*ast.SelectorExpr); ok && sel.Sel.Name == "Length" && len(e.Args) == 0 {
+			if n, ok := c.viewRefName(sel.X); ok {
+				parts := strings.SplitN(n, ".", 2)
+				if len(parts) == 2 && c.pkgs[parts[0]] != nil {
+					if vd := c.pkgs[parts[0]].views[parts[1]]; vd != nil && !vd.specful {
+						if call, ok := vd.expr.(*ast.CallExpr); ok && len(call.Args) == 2 && strings.Contains(sszExprStr(call.Fun), "VectorType") {
+							return (&sszCtx{c.pkgs, c.pkgs[parts[0]]}).lexpr(call.Args[1], nil, depth+1)
+						}
+					}
+				}
+			}
+		}
 		// conversions uint64(x), Uint64View(x) …
 		if len(e.Args) == 1 {
 			if id, ok := e.Fun.(*ast.Ident); ok && (id.Name == "uint64" || id.Name == "int" || id.Name == "Uint64View") {
@@ -110,6 +123,11 @@ func (c *sszCtx) sizeE(e ast.Expr, specNames map[string]bool) string {
 			}
 		}
 	}
+	if sel, ok := e.(*ast.SelectorExpr); ok && sel.Sel.Name == "Size" {
+		if n, ok := c.viewRefName(sel.X); ok && strings.HasSuffix(n, "Type") {
+			return fmt.Sprintf("(.typeByteLength n!%q)", n)
+		}
+	}
 	if s, ok := c.lexpr(e, specNames, 0); ok && strings.HasPrefix(s, "(.lit ") {
 		return "(.lit " + strings.TrimSuffix(strings.TrimPrefix(s, "(.lit "), ")") + ")"
 	}
@@ -146,6 +164,10 @@ func sszFieldArg(e ast.Expr, recv string) (string, bool) {
 			return sszFieldArg(call.Args[0], recv)
 		}
 	}
+	// conversions to ztyp view types: (*BoolView)(&x.F), (BoolView)(x.F), Uint64View(x.F)
+	if tn, inner, ok := conversion(e); ok && strings.HasSuffix(tn, "View") {
+		return sszFieldArg(inner, recv)
+	}
 	if u, ok := e.(*ast.UnaryExpr); ok && u.Op == token.AND {
 		e = u.X
 	}
@@ -168,12 +190,12 @@ func sszLeanStrList(xs []string) string {
 func sszOpaque(why string) string { return fmt.Sprintf("(.opaque %q)", why) }
 
 // sszSingleReturn: the body is `return <expr>`, optionally preceded by `x := uint64(len(recv))`
-func sszSingleReturn(fd *ast.FuncDecl) (ast.Expr, map[string]bool, bool) {
+func sszSingleReturn(fd *ast.FuncDecl, recv string) (ast.Expr, map[string]bool, bool) {
 	lenVars := map[string]bool{}
 	if fd.Body == nil {
 		return nil, nil, false
 	}
-	stmts := fd.Body.List
+	stmts := stripPreludes(fd.Body.List, recv)
 	for len(stmts) > 1 {
 		as, ok := stmts[0].(*ast.AssignStmt)
 		if !ok || as.Tok != token.DEFINE || len(as.Lhs) != 1 || len(as.Rhs) != 1 {
@@ -215,10 +237,20 @@ func sszIsLenExpr(e ast.Expr, lenVars map[string]bool) bool {
 }
 
 func (c *sszCtx) method(t *sszType, name string) string {
+	d := c.methodCore(t, name)
+	if strings.HasPrefix(d, "(.opaque") {
+		if s, ok := c.bespoke(t, name); ok {
+			return s
+		}
+	}
+	return d
+}
+
+func (c *sszCtx) methodCore(t *sszType, name string) string {
 	m := t.methods[name]
 	fd := m.decl
 	spec := sszSpecParamNames(fd)
-	ret, lenVars, ok := sszSingleReturn(fd)
+	ret, lenVars, ok := sszSingleReturn(fd, m.recv)
 	if !ok {
 		return sszOpaque("body is not a single return statement")
 	}
@@ -247,6 +279,9 @@ func (c *sszCtx) method(t *sszType, name string) string {
 						return sszOpaque(fn + " with an element size that is neither a literal nor XType.TypeByteLength(): " + sszExprStr(call.Args[1]))
 					}
 					if fn == "Vector" {
+						if name == "Serialize" && sszIsLenExpr(call.Args[2], lenVars) {
+							return fmt.Sprintf("(.vector n!%q (some %s) none)", fn, size) // as many as the slice holds
+						}
 						l, ok := c.lexpr(call.Args[2], spec, 0)
 						if !ok {
 							return sszOpaque("Vector with a length that is not constant arithmetic: " + sszExprStr(call.Args[2]))
@@ -272,11 +307,35 @@ func (c *sszCtx) method(t *sszType, name string) string {
 				}
 			case "ComplexVectorHTR", "Uint64VectorHTR":
 				if len(call.Args) == 2 {
+					if sszIsLenExpr(call.Args[1], lenVars) {
+						return fmt.Sprintf("(.vector n!%q none none)", fn) // length = len(receiver)
+					}
 					l, ok := c.lexpr(call.Args[1], spec, 0)
 					if !ok {
 						return sszOpaque(fn + " with a length that is not constant arithmetic: " + sszExprStr(call.Args[1]))
 					}
 					return fmt.Sprintf("(.vector n!%q none (some %s))", fn, l)
+				}
+			case "ChunksHTR":
+				// hFn.ChunksHTR(func(i) Root { return recv[i] }, len, len): a vector of roots
+				if len(call.Args) == 3 && sszIsLenExpr(call.Args[1], lenVars) && sszIsLenExpr(call.Args[2], lenVars) {
+					return `(.vector n!"ChunksHTR" none none)`
+				}
+			case "ReadRoots":
+				if len(call.Args) == 3 {
+					if l, ok := c.lexpr(call.Args[2], spec, 0); ok {
+						return fmt.Sprintf("(.vector n!\"ReadRoots\" (some (.lit 32)) (some %s))", l)
+					}
+				}
+			case "ReadRootsLimited":
+				if len(call.Args) == 3 {
+					if l, ok := c.lexpr(call.Args[2], spec, 0); ok {
+						return fmt.Sprintf("(.list n!\"ReadRootsLimited\" (some (.lit 32)) (some %s))", l)
+					}
+				}
+			case "WriteRoots":
+				if len(call.Args) == 2 && name == "Serialize" {
+					return `(.list n!"WriteRoots" (some (.lit 32)) none)`
 				}
 			case "BitList", "BitVector", "ByteList", "ReadBitList":
 				if name == "Deserialize" && len(call.Args) >= 2 {
